@@ -681,9 +681,9 @@ def run_spec(spec, strict=False, max_trials=None):
             else:
                 resource, metric, cost = max(1, sl["ptr"] - 1), op[2], op[3]
             tid = sl["tid"]
-            # cumulative cost as the checker understands it: offset = total at the last milestone,
-            # reset when the trial restarts from scratch
-            if sl.get("scratch") and sl["resume_from"] is not None and resource <= sl["resume_from"]:
+            # cumulative cost as the checker understands it: offset = total at the last milestone, reset when a
+            # resumed trial reports a level <= resume_from (= it restarted from scratch; also a repeated level)
+            if sl["resume_from"] is not None and resource <= sl["resume_from"]:
                 totals[tid] = 0.0
                 stats["ignored"] += 1
             tot = cost + totals.get(tid, 0.0)
